@@ -5,6 +5,7 @@
 package instr
 
 import (
+	_ "embed"
 	"encoding/json"
 	"fmt"
 	"go/ast"
@@ -29,10 +30,18 @@ type Point struct {
 type Result struct {
 	Points  []Point
 	Overlay map[string]string
+	Shimmed int // number of files whose sync import was redirected
 }
 
-// Run instruments repoDir/*.go (non-test, not the hooks file) into outDir.
-func Run(repoDir, outDir string) (*Result, error) {
+//go:embed shim/verifsync.go.txt
+var shimSource []byte
+
+// ShimImport is the import path of the sync stand-in injected by the overlay.
+const ShimImport = "github.com/vogo/gohessian/verifsync"
+
+// Run instruments repoDir/*.go (non-test, not the hooks file) into outDir. With shim set, imports of
+// "sync" are redirected to the stand-in package, which the overlay adds as a virtual package.
+func Run(repoDir, outDir string, shim bool) (*Result, error) {
 	files, err := filepath.Glob(filepath.Join(repoDir, "*.go"))
 	if err != nil {
 		return nil, err
@@ -80,6 +89,22 @@ func Run(repoDir, outDir string) (*Result, error) {
 			text string
 		}
 		var inserts []ins
+		if shim {
+			for _, im := range pf.f.Imports {
+				if im.Path.Value == `"sync"` {
+					// keep the local name "sync": only the path changes
+					off := fset.Position(im.Path.Pos()).Offset
+					end := fset.Position(im.Path.End()).Offset
+					name := ""
+					if im.Name == nil {
+						name = "sync "
+					}
+					inserts = append(inserts, ins{off, name + `"` + ShimImport + `" /*`})
+					inserts = append(inserts, ins{end, "*/"})
+					res.Shimmed++
+				}
+			}
+		}
 		var visitStmts func(list []ast.Stmt, fn string)
 		addPoint := func(s ast.Stmt, fn string) {
 			switch s.(type) {
@@ -179,6 +204,13 @@ func Run(repoDir, outDir string) (*Result, error) {
 			return nil, err
 		}
 		res.Overlay[pf.path] = dst
+	}
+	if shim {
+		dst := filepath.Join(outDir, "verifsync.go")
+		if err := os.WriteFile(dst, shimSource, 0o644); err != nil {
+			return nil, err
+		}
+		res.Overlay[filepath.Join(repoDir, "verifsync", "verifsync.go")] = dst
 	}
 	ov, _ := json.MarshalIndent(map[string]interface{}{"Replace": res.Overlay}, "", " ")
 	if err := os.WriteFile(filepath.Join(outDir, "overlay.json"), ov, 0o644); err != nil {
